@@ -20,7 +20,7 @@ from fractions import Fraction as Fr
 import numpy as np
 
 PROP = 'C10'
-TARGETS = ['T13o', 'T13e', 'T13w', 'TC10f', 'TC10g']
+TARGETS = ['T13o', 'T13e', 'T13w', 'TC10f', 'TC10g', 'TC10s']
 LEAN_MODULES = ['HdVerif.Props.C10']
 MODEL_MODULES = ['HdVerif.Model.Affine', 'HdVerif.Model.AffineCalls', 'HdVerif.Model.AffineImage']
 NAMESPACE = 'HdVerif.C10'
@@ -1218,7 +1218,7 @@ def _dataset_cases(ctx, reqs, pend):
     for i in range(n):
         r = ctx.rng('ds', i)
         pl = _plane(r)
-        kind = ['single', 'perframe', 'shared', 'sparse', 'full', 'full', 'perframe_all', 'full_multi', 'localizer'][i % 9]
+        kind = ['single', 'perframe', 'shared', 'sparse', 'full', 'full_multi', 'perframe_all', 'full_multi', 'localizer', 'full', 'full_multi'][i % 11]
         case = {'fn': 'for_image', 'kind': kind, 'plane': pl}
         row, col = np.array(pl['ori'][:3]), np.array(pl['ori'][3:])
         if kind == 'localizer':
@@ -1270,10 +1270,11 @@ def _dataset_cases(ctx, reqs, pend):
                             ctx.fail(dict(case, cls=cls.__name__, frame=f + 1, frames=nfr, variant=vname),
                                      {'what': "transformer of a frame differs from the frame's own explicit attributes",
                                       'got': t.affine.tolist() if st == 'ok' else t, 'want': want.tolist()}, site='for_image')
-                # the model of _get_spatial_information / for_image: every frame, frame 0 (Python's index -1), one outside, none
+                _check_outside_refused(ctx, dict(case, variant=vname), dv, nfr, r)
+                # the model of _get_spatial_information / for_image: every frame, frame 0, negative ones, one outside, none
                 mtol = TOL * 4096 * (1 + Fr(max(abs(x) for p_ in planes for x in p_['pos'])))
                 dsc = _describe(dv)
-                for fno in list(range(0, nfr + 2)) + [None]:
+                for fno in list(range(-nfr, nfr + 2)) + [None]:
                     _for_image_compare(reqs, pend, dict(case, variant=vname), dv, fno, False, mtol, dsc)
                 _for_image_compare(reqs, pend, dict(case, variant=vname), dv, 1, True, mtol, dsc)
                 # two frames of the same image with different planes: pixel-to-pixel is refused unless they are coplanar
@@ -1332,8 +1333,9 @@ def _dataset_cases(ctx, reqs, pend):
                         _for_image_compare(reqs, pend, case, ds1, fno, False, mtol)
                     _for_image_compare(reqs, pend, case, ds1, None, True, mtol)
             else:
+                _check_outside_refused(ctx, case, frames[0][0], nfr, r)
                 dsc = _describe(frames[0][0])
-                for fno in list(range(0, nfr + 2)) + [None, -1]:
+                for fno in list(range(-nfr, nfr + 2)) + [None]:
                     _for_image_compare(reqs, pend, case, frames[0][0], fno, False, mtol, dsc)
                 _for_image_compare(reqs, pend, case, frames[0][0], 1, True, mtol, dsc)
             # the option flags of the inverse transformers are passed through
@@ -1424,7 +1426,9 @@ def _dataset_cases(ctx, reqs, pend):
         # the model of _get_spatial_information / iter_tiled_full_frame_data / for_image: every frame, outside, total matrix
         mtol = TOL * 4096 * (1 + Fr(max(abs(x) for x in pl['pos'])) + (trows + tcols) * 4)
         dsc = _describe(ds)
-        for fno in list(range(0, len(tiles) + 2)) + [None]:
+        if tiles:
+            _check_outside_refused(ctx, case, ds, len(tiles), r)
+        for fno in list(range(-1, len(tiles) + 2)) + [None, -len(tiles)]:
             _for_image_compare(reqs, pend, case, ds, fno, False, mtol, dsc)
         _for_image_compare(reqs, pend, case, ds, None, True, mtol, dsc)
         # pixel-to-pixel between a frame and the total pixel matrix of the same image
@@ -1504,6 +1508,28 @@ def _for_image_compare(reqs, pend, case, ds, frame, total, tol, desc=None):
     pend.append((dict(case, fn='for_image vs model', frame=frame, total=total, multi=True), impl, tol))
 
 
+def _check_outside_refused(ctx, case, ds, nframes, r):
+    """a 1-based frame number outside 1 … n names no frame: every for_image / for_images constructor refuses it (0 and negative numbers
+    must not be answered with a frame counted from the end)"""
+    from highdicom import spatial as sp
+    for fno in (0, -1, -nframes, -nframes + 1, nframes + 1, nframes + r.randint(2, 9)):
+        if 1 <= fno <= nframes:
+            continue
+        for cls in _tcls():
+            st, t = _call(cls.for_image, ds, frame_number=fno)
+            ctx.case(fn='for_image', kind='frame_number_outside', outcome=st if st == 'ok' else t)
+            if st == 'ok':
+                ctx.fail(dict(case, cls=cls.__name__, frame=fno, frames=nframes),
+                         {'what': 'a frame number outside 1 … n is answered with a transformer', 'origin': t.affine[:3, 3].tolist()}, site='frame_number')
+                return False
+        for cls2 in (sp.PixelToPixelTransformer, sp.ImageToImageTransformer):
+            for kw in ({'frame_number_from': fno, 'frame_number_to': 1}, {'frame_number_from': 1, 'frame_number_to': fno}):
+                if _call(cls2.for_images, ds, ds, **kw)[0] == 'ok':
+                    ctx.fail(dict(case, cls=cls2.__name__, frames=nframes, **kw), 'a frame number outside 1 … n is accepted by for_images', site='frame_number')
+                    return False
+    return True
+
+
 def _for_images_compare(reqs, pend, case, ds_f, ds_t, frame_f, frame_t, total_f, total_t, tol, desc_f=None, desc_t=None):
     """PixelToPixelTransformer.for_images / ImageToImageTransformer.for_images (same frame of reference) against the model"""
     from highdicom import spatial as sp
@@ -1521,12 +1547,18 @@ def _coord_input(ds):
     """what get_image_coordinate_system looks at, read off the dataset independently of it"""
     present = [kw for kw in ('FrameOfReferenceUID', 'ImageOrientationSlide', 'ImageCenterPointCoordinatesSequence', 'ImagePositionPatient',
                              'SharedFunctionalGroupsSequence', 'PerFrameFunctionalGroupsSequence') if kw in ds]
-    first = []
+    first, empty = [], []
     for kw in ('SharedFunctionalGroupsSequence', 'PerFrameFunctionalGroupsSequence'):
-        if kw in ds and len(ds[kw].value) and 'PlanePositionSequence' in ds[kw].value[0] \
-                and 'ImagePositionPatient' in ds[kw].value[0].PlanePositionSequence[0]:
-            first.append(kw)
-    return {'present': present, 'first_item': first}
+        if kw not in ds:
+            continue
+        if not len(ds[kw].value):
+            empty.append(kw)
+        elif 'PlanePositionSequence' in ds[kw].value[0]:
+            if not len(ds[kw].value[0].PlanePositionSequence):
+                empty.append(kw)
+            elif 'ImagePositionPatient' in ds[kw].value[0].PlanePositionSequence[0]:
+                first.append(kw)
+    return {'present': present, 'first_item': first, 'empty': empty}
 
 
 def _coord_cases(ctx, reqs, pend):
@@ -1557,7 +1589,7 @@ def _coord_cases(ctx, reqs, pend):
         else:
             ds, want = sources.single_image_no_for(3, 4), None
         edit = r.choice(['none', 'none', 'drop_for', 'add_slide_marker', 'add_center_point', 'drop_positions', 'position_in_second_frame_only',
-                         'drop_slide_orientation', 'add_root_position'])
+                         'drop_slide_orientation', 'add_root_position', 'empty_shared_groups', 'empty_plane_position'])
         ds = copy.deepcopy(ds)
         if edit == 'drop_for' and 'FrameOfReferenceUID' in ds:
             del ds.FrameOfReferenceUID
@@ -1582,17 +1614,23 @@ def _coord_cases(ctx, reqs, pend):
         elif edit == 'drop_slide_orientation' and want == 'SLIDE':
             del ds.ImageOrientationSlide
             want = None
+        elif edit == 'empty_shared_groups' and kind in ('perframe', 'shared'):
+            ds.SharedFunctionalGroupsSequence = DSeq([])                           # `fgs[0]` of an empty sequence: IndexError
+            want = 'index'
+        elif edit == 'empty_plane_position' and kind == 'perframe':
+            ds.PerFrameFunctionalGroupsSequence[0].PlanePositionSequence = DSeq([])
+            want = 'index'
         elif edit == 'add_root_position' and want == 'SLIDE':
             ds.ImagePositionPatient = [1.0, 2.0, 3.0]                              # slide markers win
         st, got = _call(sp.get_image_coordinate_system, ds)
         gv = None if (st != 'ok' or got is None) else got.value
-        case = {'fn': 'get_image_coordinate_system', 'kind': kind, 'edit': edit}
+        case = {'fn': 'get_image_coordinate_system', 'kind': kind, 'edit': edit, 'kind_matters': True}
         ctx.case(fn='coordinate_system', kind=kind, edit=edit, outcome=str(gv) if st == 'ok' else got,
                  nontrivial_key=('coord', kind, edit, gv))
-        if st != 'ok' or gv != want:
+        if (got if st != 'ok' else gv) != want:
             ctx.fail(case, {'got': gv if st == 'ok' else got, 'want': want}, site='coordinate_system')
         reqs.append(('coordSystem', _coord_input(ds)))
-        pend.append((case, (st, None if gv is None else gv.lower()), 0))
+        pend.append((case, (st, (None if gv is None else gv.lower()) if st == 'ok' else got), 0))
         # images without a coordinate system have no transformers
         if want is None:
             for cls in _tcls():
@@ -1604,7 +1642,7 @@ def _coord_cases(ctx, reqs, pend):
 SEG_UID = '1.2.840.10008.5.1.4.1.1.66.4'
 LABELMAP_UID = '1.2.840.10008.5.1.4.1.1.66.7'
 WSI_UID = '1.2.840.10008.5.1.4.1.1.77.1.6'
-TILED_FLAVOURS = ['wsi', 'wsi', 'wsi_nocount', 'seg_binary', 'seg_fractional', 'seg_labelmap']
+TILED_FLAVOURS = ['wsi', 'wsi', 'wsi_nocount', 'seg_binary', 'seg_fractional', 'seg_labelmap', 'seg_labelmap']
 
 
 def _tcls():
@@ -1831,6 +1869,7 @@ def _tiled_multi_case(ctx, reqs, pend, r, pl, case, geo):
              z_origin='absent' if t['z'] is None else 'given', slice_spacing='absent' if t['zsp'] is None else 'given', variant=variant,
              nontrivial_key=('ds', 'full_multi', t['flavour'], min(nch, 2), min(npl, 2), t['cls']) if ok else None)
     # frame numbers outside the image are refused
+    _check_outside_refused(ctx, case, ds, n, r)
     for bad_f in (0, n + 1, n + 1 + r.randint(1, 50)):
         st, tf = _call(sp.PixelToReferenceTransformer.for_image, ds, frame_number=bad_f)
         if st == 'ok':
@@ -1940,7 +1979,8 @@ def _history_cases(ctx, reqs=None, pend=None):
             elif kind == 'sparse':
                 bad = _call(sp.PixelToReferenceTransformer.for_image, obj, frame_number=None)
             elif kind == 'perframe':
-                bad = _call(sp.PixelToReferenceTransformer.for_image, obj, for_total_pixel_matrix=True)
+                bad = (_call(sp.PixelToReferenceTransformer.for_image, obj, for_total_pixel_matrix=True) if r.random() < 0.5
+                       else _call(sp.PixelToReferenceTransformer.for_image, obj, frame_number=r.choice([0, -1, t['nfr'] + 1])))
             else:
                 bad = _call(sp.PixelToReferenceTransformer.for_image, obj[0], frame_number=2)
             if bad[0] == 'ok':
